@@ -16,6 +16,7 @@ from pathlib import Path
 
 sys.path.insert(0, str(Path(__file__).resolve().parent.parent))
 from harness.common import (Run, Disagreement, cli, LEAN, DriverError)  # noqa: E402
+from harness import c13_blocks  # noqa: E402
 
 PROP = 'C13'
 MAXCP1 = 0x110000
@@ -649,6 +650,13 @@ def replay(run: Run) -> int:
     import json
     data = json.loads(open(run.replay).read())
     fi = data.get('failing_input')
+    if fi and isinstance(fi.get('case'), dict) and 'block_history' in fi['case']:
+        c13_blocks.block_histories(run, only=fi['case']['block_history'])
+        for d in run.disagreements:
+            print('REPRODUCED', d.to_json())
+        print('replayed block history', fi['case']['block_history'], '->',
+              'still failing' if run.disagreements else 'no longer failing')
+        return 1 if run.disagreements else 0
     if not fi or not isinstance(fi.get('case'), str):
         print('replay file names no concrete input:', data.get('broken'))
         return 1
@@ -838,10 +846,14 @@ def body(run: Run) -> int:
         return replay(run)
     info = translate_tables(run)
     run.stats.extra['tables'] = info
+    try:
+        run.stats.extra['block_derivation'] = c13_blocks.translate_blocks(run)
+    except Exception as e:      # noqa  (mutated code must not crash the harness)
+        run.broken.append(f'translator:C13 block derivation {type(e).__name__}: {e}'[:300])
     run.trusted_base += ['translator harness/c13.py::translate_tables (prints live tables as Lean literals)',
                          'unicodedata of the running CPython as the category oracle']
     run.assumptions += ['Python set/int semantics in the harness', 'character-subset texts outside the XSD group grammar (lenient zone) are tied to the model only, no specification']
-    props = ['EPV.Props.C13', 'EPV.Props.C13Str', 'EPV.Props.C13Tables']
+    props = ['EPV.Props.C13', 'EPV.Props.C13Str', 'EPV.Props.C13Tables', 'EPV.Props.C13Blocks']
     if not run.quick:
         run.stats.extra['all_versions'] = translate_all_versions(run)
         props.append('EPV.Props.ThoroughC13V')
@@ -866,6 +878,10 @@ def body(run: Run) -> int:
         run.disagree(d)
     install_histories(run)
     try:
+        c13_blocks.block_histories(run)
+    except DriverError as e:
+        run.broken.append('driver:C13 ' + str(e)[:300])
+    try:
         correspond(run)
     except DriverError as e:
         run.broken.append('driver:C13 ' + str(e)[:300])
@@ -873,4 +889,4 @@ def body(run: Run) -> int:
 
 
 if __name__ == '__main__':
-    cli(PROP, body, translate=translate_tables)
+    cli(PROP, body, translate=lambda run: (translate_tables(run), c13_blocks.translate_blocks(run)))
